@@ -8,12 +8,12 @@ git -C /repo worktree remove --force $wt >/dev/null 2>&1
 git -C /repo worktree add --detach $wt HEAD >/dev/null 2>&1 || exit 2
 git -C $wt apply /verif/seeded/$name/patch.diff || { git -C /repo worktree remove --force $wt; exit 2; }
 for p in "$@"; do
-  cd /verif && VERIF_REPO=$wt timeout 3000 python3 verif.py check $p --tier quick > /tmp/mut_${name}_$p.log 2>&1
+  cd ${VROOT:-/verif} && VERIF_REPO=$wt timeout 3000 python3 verif.py check $p --tier quick > /tmp/mut_${name}_$p.log 2>&1
   rc=$?
   echo "$name $p exit=$rc $(grep -c '^VIOLATION' /tmp/mut_${name}_$p.log) violation lines"
   grep -A1 '^VIOLATION' /tmp/mut_${name}_$p.log | head -4
   grep 'TOOL-ERROR' /tmp/mut_${name}_$p.log | head -2 | cut -c1-300
 done
 tag=$(python3 -c "import sys; r='$wt'; print('alt_' + ''.join(ch if ch.isalnum() else '_' for ch in r)[-40:])")
-rm -rf /verif/work/$tag
+rm -rf ${VROOT:-/verif}/work/$tag
 git -C /repo worktree remove --force $wt
